@@ -161,6 +161,9 @@ def failTag (i : In) (x : Obs) : String :=
 
 def dedup (l : List String) : List String := l.foldl (fun acc x => if acc.contains x then acc else acc ++ [x]) []
 
+/-- known-finding class: see known_findings.json -/
+def cacheClass : String := "failed-input-leaves-cached-mutable-result"
+
 def runCase (inp obs : String) : CaseResult :=
   match parseCase inp obs with
   | none => CaseResult.badLine
@@ -169,9 +172,14 @@ def runCase (inp obs : String) : CaseResult :=
     let stmtOn (ab : List Obs × List Obs) : Bool :=
       ab.1.length == flags.length && statement (flags.zip ab.1) ab.2
     let names := ["A", "B", "C", "D"]
-    let stmtImpl := names.all fun n => match c.cfgs.lookup n with
+    let stmtCfg (n : String) : Bool := match c.cfgs.lookup n with
       | some ab => stmtOn ab
       | none => false
+    let stmtImpl := names.all stmtCfg
+    -- listed finding class (C04's closure-result class seen through C10): the statement fails only with the
+    -- function-result cache on - a call completed by the failing input left an entry whose (mutable) result
+    -- a later input receives
+    let cacheOnlyImpl := !stmtImpl && stmtCfg "C" && stmtCfg "D"
     let implA := ((c.cfgs.lookup "A").getD ([], [])).1
     let failTags := dedup ((c.ins.zip implA).filterMap fun (i, x) => if i.fail then some (failTag i x) else none)
     let nFail := (flags.filter id).length
@@ -190,9 +198,10 @@ def runCase (inp obs : String) : CaseResult :=
         "/".intercalate (m.1.map Obs.render) ++ " ## " ++ "/".intercalate (m.2.map Obs.render)
       { model := "B:" ++ rend mB ++ " @@ D:" ++ rend mD,
         agree := agreeOn "B" mB && agreeOn "D" mD,
-        stmtModel := stmtOn mB && stmtOn mD, stmtImpl := stmtImpl, tags := tags, nontrivial := nontrivial }
+        stmtModel := stmtOn mB && stmtOn mD, stmtImpl := stmtImpl, tags := tags, nontrivial := nontrivial,
+        klass := if (cacheOnlyImpl || (stmtImpl && !stmtOn mB)) && stmtOn mD then cacheClass else "" }
     | .error w, _ | _, .error w =>
       { model := "declined:" ++ w, agree := false, stmtModel := true, stmtImpl := stmtImpl, unmodelled := true,
-        tags := ("declined:" ++ w) :: tags, nontrivial := nontrivial }
+        tags := ("declined:" ++ w) :: tags, nontrivial := nontrivial, klass := if cacheOnlyImpl then cacheClass else "" }
 
 end Grol.SessionSuite
